@@ -4,21 +4,32 @@ proof:  Verif.Props.C02 over the faithful Verif.Model.Codec / Verif.Model.Tabs: 
         bijection on marker-free text), escape_roundtrip(+_resolve), the negative results codec_collision_x05 / sentinel_collision /
         resolveBackspaces_defects / escape_roundtrip_excluded, detabify_eq_detab (the real section loop = the one-pass reference), detab_noTab /
         detab_id_of_noTab / detab_length_ge / colAfter_mono / tab_stop,
-        final_newline_rule, pragma_reinsert (+ its two excluded points).
+        final_newline_rule, pragma_reinsert (+ its two excluded points);
+        over Verif.Model.LeadingSpaces (the newline-joined per-line prefix store of list / block-quote tokens): leading_store_roundtrip(_bq),
+        leading_index_inv, remove_last_undoes_add(_bq) and the boundary witnesses leading_store_excluded / leading_index_excluded /
+        remove_last_excluded; over Verif.Model.LeafFields (which pieces of a leaf's opening line go into the token): atx_fields,
+        thematic_fields, setext_fields, fence_close_fields, blank_fields, fence_open_fields_partial + fence_open_fields_excluded (F-FENCE-TRAILWS).
 tie:    (a) function level: every modelled function against the REAL function (private ones through name mangling, each call under a CPU
         timer) on all strings of length <= 6 over {\\b \\a U+0005 U+0003 \\ x &}; piece lists encoded with the real encoders; tab / nth /
         final-newline / pragma functions on their own small alphabets; the three sentinel constants by reflection.
+        (a') REAL container tokens (built with their constructors) driven through every sequence of <= 6 store operations over the prefixes
+        "", " ", "> ", ">", "   ", TAB — their own methods and the regenerator's two look-up functions — against the model, operation by
+        operation (returned value / exception + complete state);  (a'') for every string of length <= 6 over each leaf recogniser's alphabet
+        the one-line document is parsed by the REAL parser and the fields of the block-pass tokens + the regenerated line are compared with
+        `fields` / `reassemble` of the model (tools/leadlib.py).
 oracle: (b) document level, the property itself: TransformToMarkdown().transform(tokens) == source for every document of the registered
         strata (DESIGN §4).  Documents that do not tokenize are C01's and are skipped and counted.  A failure inside a footprint of
         known_findings.json (tools/footprints_c02.py) prints KNOWN-FINDING; any other failure is a VIOLATION.
         Codec-level clauses are also evaluated directly on the real functions: remove_all(escape(s)) == s, remove_all(encode ps) ==
-        source ps, resolve_all(encode ps) == rendered ps on the domains the theorems state.
+        source ps, resolve_all(encode ps) == rendered ps on the domains the theorems state; likewise consume(store ps) == ps on the real
+        tokens and concat(real fields) == line for every accepted leaf line (outside the F-FENCE-TRAILWS shape, which is counted).
 Unregistered strata (full-prefix two-line documents, wrapped two-line documents, wrapped corpus) run only with VERIF_FRONTIER=1: their
 failures are reported as FRONTIER lines, never as violations, and are not part of the registered claim.
 """
 import collections, inspect, itertools, json, multiprocessing as mp, os, re, signal, sys, time, traceback
 import vlib, implib, docs
 import codeclib as C
+import leadlib as LS
 import footprints_c02 as FP
 
 DOC_TIMER = 3.0   # CPU seconds per document (parse + regenerate)
@@ -289,6 +300,153 @@ def function_level(ctx):
     return stats, mism, oracle
 
 
+
+# ------------------------------------------------------------------ building blocks: prefix store + leaf fields
+def _concat_fields(ans):
+    """the rehydrators' concatenation, computed from the REAL fields (independent of the model) -> (kind, string)"""
+    f = ans.split("|")
+    u = lambda x: vlib.unhex(x[1:])
+    k = f[0]
+    if k == "atx":
+        return k, u(f[1]) + "#" * int(f[2]) + u(f[3]) + u(f[4]) + u(f[5]) + "#" * int(f[6]) + u(f[7])
+    if k == "tb":
+        return k, u(f[1]) + u(f[3])
+    if k == "fopen":
+        return k, u(f[1]) + chr(int(f[2])) * int(f[3]) + u(f[4]) + u(f[5]) + u(f[6])
+    if k == "fclose":
+        return k, u(f[1]) + "?" * int(f[2]) + u(f[3])
+    if k == "setext":
+        return k, u(f[1]) + chr(int(f[2])) * int(f[3]) + u(f[4])
+    return k, u(f[1])
+
+
+def building_blocks(ctx):
+    """-> (stats, mismatches [(request, real, model)], oracle failures [(theorem, input, detail)], fence duplicates counted)"""
+    q = ctx.quick()
+    stats, mism, oracle = collections.OrderedDict(), [], []
+    have_model = bool(ctx.lean.get("build_ok"))
+    # ---- (a') the prefix store
+    t0 = time.time()
+    per_space, seqs, ops_cmp, outcomes = [], 0, 0, collections.Counter()
+    samples = []
+    for kind, alpha, n in LS.SPACES:
+        reqs = LS.sample_requests(ctx.rng, kind, alpha, n, 12000) if q else list(LS.all_requests(kind, alpha, n))
+        real = LS.pool_map(LS._work_leading, reqs, chunk=2000)
+        model = vlib.Driver("leading").run(reqs) if have_model else [None] * len(reqs)
+        distinct = set()
+        for (r, a), m in zip(real, model):
+            ops = r.split("|")[1].split(";")
+            ops_cmp += len(ops)
+            for x in a.split(";"):
+                h = x.split("@")[0]
+                outcomes[h if h.startswith("err") else h.split("=")[0]] += 1
+            if q:
+                for i in range(1, len(ops) + 1):
+                    distinct.add(tuple(ops[:i]))
+            if m is not None and a != LS.canon_model_leading(r, m):
+                mism.append((r, a, m))
+        if len(samples) < 3 and real:
+            samples.append({"request": real[len(real) // 2][0], "real_and_model": real[len(real) // 2][1]})
+        per_space.append({"token": kind, "operations": len(alpha), "max_length": n, "requests": len(reqs),
+                          "distinct_sequences": len(distinct) if q else LS.space_size(alpha, n)})
+        seqs += per_space[-1]["distinct_sequences"]
+    # the round-trip theorem evaluated on the real objects (and the model's answer to the same request)
+    plists = [tuple(t) for k in range(0, (4 if q else 5) + 1) for t in itertools.product(LS.PREFIXES, repeat=k)]
+    sreq, rt_checked = [], 0
+    for kind in ("list", "bq"):
+        for ps in plists:
+            got = LS.real_storeall(kind, list(ps))
+            sreq.append((f"storeall-{kind}|" + ";".join("p" + vlib.hexs(p) for p in ps), got))
+            back = got.split("|")[1]
+            want = list(ps)
+            if kind == "bq":                      # leading_store_roundtrip_bq: up to the ""-store ambiguity (bqNormal)
+                r = list(itertools.dropwhile(lambda p: p == "", ps))
+                want = r if r else [""]
+            rt_checked += 1
+            if back != ";".join(LS.hx(p) for p in want):
+                oracle.append(("leading_store_roundtrip" + ("_bq" if kind == "bq" else ""), list(ps), {"real": got, "expected_parts": want}))
+    if have_model:
+        for (r, a), m in zip(sreq, vlib.Driver("leading").run([r for r, _ in sreq])):
+            if a != m:
+                mism.append((r, a, m))
+    # the store at work: every store operation the real parser / regenerator performs on the documents of the strata, replayed through the
+    # model (in-situ correspondence) and through `Legal` (is the protocol of leading_index_inv the one the parser follows?)
+    core1 = list(docs.d1(docs.CORE_PREFIX, docs.CORE_BODY))
+    tdocs = core1 + list(docs.d1()) + [wrap(d, k) for d in core1 for k in ("bq", "ul", "ol")] + docs.leaf_edges() + \
+        list(dict.fromkeys(docs.repo_sources() + [t for _, t in docs.rule_resources()]))
+    tdocs = list(dict.fromkeys(tdocs))
+    if q:
+        tdocs = docs.sample(ctx.rng, tdocs, 1500)
+    traced = LS.pool_map(LS._work_trace, tdocs, chunk=50, init=LS._init_trace_worker)
+    lives = [(d, r, a) for d, tr in traced for r, a in tr]
+    tstat = collections.Counter()
+    illegal, first_illegal = collections.Counter(), []
+    if have_model and lives:
+        tm = vlib.Driver("leading").run([r for _, r, _ in lives])
+        tl = vlib.Driver("leading-legal").run([r if r.startswith("bq|") else "bq|" for _, r, _ in lives])
+        for (d, r, a), m, l in zip(lives, tm, tl):
+            n = r.count(";")
+            tstat["operations"] += n
+            tstat["list_lives" if r.startswith("list|") else "bq_lives"] += 1
+            if a != m:
+                mism.append((r, a, m))
+            if r.startswith("bq|"):
+                for op, bits in zip(r.split("|")[1].split(";"), l.split(";")):
+                    if bits[1] == "0":
+                        illegal[op.split(":")[0]] += 1
+                        if len(first_illegal) < 3:
+                            first_illegal.append({"doc": d, "operations": r})
+                    if bits.endswith("I0"):
+                        tstat["states_outside_invariant"] += 1
+    ops_cmp += tstat["operations"]
+    stats["store"] = {"spaces": per_space, "operation_sequences": seqs, "operations_compared": ops_cmp, "outcomes": dict(outcomes),
+                      "roundtrip_lists_checked": rt_checked, "samples": samples,
+                      "traced": dict(tstat, documents=len(tdocs), object_lives=len(lives), illegal_operations=dict(illegal), illegal_examples=first_illegal),
+                      "wall_s": round(time.time() - t0, 1)}
+    # ---- (a'') leaf fields
+    t0 = time.time()
+    fam_stats, fsamples = collections.OrderedDict(), []
+    dup = 0
+    for fam, (alpha, _) in LS.FIELD_FAMILIES.items():
+        strs = list(C.all_strings(list(alpha), 4 if q else 6))
+        if q:
+            extra = set()
+            while len(extra) < 2500:
+                extra.add("".join(ctx.rng.choice(alpha) for _ in range(ctx.rng.choice([5, 6]))))
+            strs += sorted(extra)
+        strs += LS.FIELD_EXTRA[fam]
+        reqs = LS.field_requests(fam, list(dict.fromkeys(strs)))
+        real = LS.pool_map(LS._work_fields, reqs, chunk=500, init=LS._init_fields_worker)
+        model = vlib.Driver("fields").run(reqs) if have_model else [None] * len(reqs)
+        cnt = collections.Counter()
+        for (r, a), m in zip(real, model):
+            if a.startswith("not-tokenized"):
+                cnt["skipped_not_tokenized(C01)"] += 1
+                continue
+            cnt["accepted" if a != "none" else "rejected"] += 1
+            if m is not None and a != m:
+                mism.append((r, a, m))
+            if a != "none":
+                line = vlib.unhex(r.split("|")[1])
+                k, cat = _concat_fields(a.rsplit("|", 1)[0])
+                if k == "fclose":
+                    cat = cat.replace("?", vlib.unhex(r.split("|")[2]))
+                if cat != line:
+                    f = a.split("|")
+                    if k == "fopen" and f[5] == "=" and f[4] != "=" and cat == line + vlib.unhex(f[4][1:]):
+                        dup += 1                      # fence_open_fields_excluded: the white space is stored twice
+                    else:
+                        oracle.append(("f_fields:" + k, line, {"real_fields": a, "concatenation": cat, "expected": line}))
+                if len(fsamples) < 6 and cnt["accepted"] in (3, 40):
+                    fsamples.append({"request": r, "real_and_model": a})
+        fam_stats[fam] = dict(cnt, requests=len(reqs), alphabet=alpha)
+    LS.uninstall_snapshot()
+    stats["fields"] = {"families": fam_stats, "requests": sum(v["requests"] for v in fam_stats.values()),
+                       "accepted_lines": sum(v.get("accepted", 0) for v in fam_stats.values()),
+                       "fence_whitespace_stored_twice": dup, "samples": fsamples, "wall_s": round(time.time() - t0, 1)}
+    return stats, mism, oracle, dup
+
+
 # ------------------------------------------------------------------ shrinking
 def signature(doc, kind, out, err):
     """what went wrong, independent of where: the set of (deleted text, inserted text) edits, or the raising call site"""
@@ -411,6 +569,16 @@ def run(ctx):
         ctx.broken.append(f"correspondence codec: {r} real={a} model={m}")
     for (thm, inp, det) in oracle[:20]:
         ctx.report({"function": thm, "input": inp}, "codec-roundtrip", dict(det, oracle=f"{thm} evaluated on the real parser_helper functions"))
+    bstats, bmism, boracle, dup = building_blocks(ctx)
+    for (r, a, m) in bmism[:50]:
+        ctx.broken.append(f"correspondence {'fields' if r.split('|')[0] in LS.FIELD_FAMILIES else 'leading'}: {r} real={a} model={m}")
+    for (thm, inp, det) in boracle[:20]:
+        ctx.report({"function": thm, "input": inp}, "store-roundtrip" if thm.startswith("leading") else "fields-roundtrip",
+                   dict(det, oracle=f"{thm} evaluated on the real tokens"))
+    if dup:
+        f = next((f for f in ctx.findings if f["id"] == "F-FENCE-TRAILWS"), None)
+        if f:
+            ctx.known_finding(f)
     strata = registered_strata(ctx)
     per, absorbed, samples = collections.OrderedDict(), {}, []
     total, nontriv_docs = 0, set()
@@ -437,9 +605,14 @@ def run(ctx):
         if f:
             ctx.known_finding(f, f"{sum(base.absorbed.values())} listed inputs (findings/C02.inputs.json): " + "; ".join(f"{k} x{v}" for k, v in sorted(base.absorbed.items())))
     if ctx.broken and not ctx.violations:
-        ctx.violation({"oracle": "Verif.Props.C02 / codec correspondence no longer checks; no unlisted failing document or string found in the registered strata",
-                       "mismatches": [list(x) for x in mism[:10]]}, no_input=True)
+        ctx.violation({"oracle": "Verif.Props.C02 / codec, prefix-store or leaf-field correspondence no longer checks; no unlisted failing document or string found in the registered strata",
+                       "mismatches": [list(x) for x in (mism + bmism)[:10]]}, no_input=True)
     ctx.assumptions += [
+        "leading_store_roundtrip: prefixes without newline; for the block-quote token up to the \"\"-store ambiguity (bqNormal; witnesses leading_store_excluded)",
+        "leading_index_inv: under the protocol Legal (no empty prefix added to an empty, already indexed store; remove only after a line was recorded; witnesses leading_index_excluded); "
+        "that the parser follows Legal is measured on recorded traces (prefix_store.traced.illegal_operations), not proved",
+        "fence_open_fields_partial: an info string or no white space after the fence (excluded shape: F-FENCE-TRAILWS, fence_open_fields_excluded)",
+        "leaf fields are compared on top-level lines (one-line documents; setext / closing fence after one fixed first line); inside containers the same processors run on the line minus the container prefix — reached by the document-level oracle only",
         "MarkerFree: remove_encode / resolve_encode hold for piece lists whose payloads contain none of \\b \\a U+0002 U+0003 U+0005 and whose replacements are non-empty",
         "escOK: escape_roundtrip excludes U+0005 directly before another marker character (witness escape_roundtrip_excluded)",
         "pragma_reinsert: pragma lines without tabs; first-line pragma only if the rest is not the empty string (witness pragma_reinsert_excluded)",
@@ -447,13 +620,22 @@ def run(ctx):
         "a real call that uses more than %.2f s CPU (re-checked with %.1f s) is taken as non-terminating" % (C.TIMER, C.TIMER_CONFIRM),
         "documents that fail to tokenize (C01) are skipped and counted"]
     ctx.write_evidence({
-        "correspondence": dict(fstats, evaluations=fstats["function_evaluations"] + fstats["piece_lists"],
-                               distinct_nontrivial=fstats["strings"] + fstats["other_function_inputs"] + fstats["piece_lists"] - 1,
+        "prefix_store": bstats["store"], "leaf_fields": bstats["fields"],
+        "correspondence": dict(fstats, evaluations=fstats["function_evaluations"] + fstats["piece_lists"] + bstats["store"]["operations_compared"]
+                               + bstats["fields"]["requests"],
+                               distinct_nontrivial=fstats["strings"] + fstats["other_function_inputs"] + fstats["piece_lists"] - 1
+                               + bstats["store"]["operation_sequences"] + bstats["fields"]["accepted_lines"],
                                rule="function level: every modelled function x every string of length <= %d over {\\b,\\a,U+0005,U+0003,\\,x,&}%s; __find_with_escape for 4 characters x every start index; "
                                     "tab/nth/final/pragma/visible functions on their own alphabets; piece lists of length <= %s over a 33-piece catalogue encoded by the real encoders. "
-                                    "distinct = distinct inputs; all but the empty string are non-trivial (each contains a marker or structural character)"
-                                    % (4 if ctx.quick() else 6, " + 1500 seeded strings of length 5-6" if ctx.quick() else "", "2 + 2000 seeded triples" if ctx.quick() else "3"),
-                               mismatches=len(mism), exhaustive=not ctx.quick()),
+                                    "distinct = distinct inputs; all but the empty string are non-trivial (each contains a marker or structural character). "
+                                    "prefix store: every sequence of <= 6 operations (list: add x 6 prefixes, remove, __adjust, primary look-up; block quote: add+index x 6, remove, next, "
+                                    "__adjust, primary) and of <= 5 / <= 4 operations over the wider alphabets (skip-newline, tabbed originals, peek with delta, allow_overflow, index writes) on REAL tokens, "
+                                    "each operation compared (distinct = distinct non-empty operation sequences); plus every store operation the real parser and regenerator perform on the "
+                                    "documents of core1 / full1 / wrap-core1 / leaf-edges / corpus, recorded by a class-level tracer and replayed through the model and through Legal. leaf fields: every string of length <= %d over each recogniser alphabet%s + edge lines, "
+                                    "parsed by the real parser (distinct non-trivial = lines accepted as the leaf)"
+                                    % (4 if ctx.quick() else 6, " + 1500 seeded strings of length 5-6" if ctx.quick() else "", "2 + 2000 seeded triples" if ctx.quick() else "3",
+                                       4 if ctx.quick() else 6, " + 2500 seeded strings of length 5-6" if ctx.quick() else ""),
+                               mismatches=len(mism) + len(bmism), exhaustive=not ctx.quick()),
         "documents": {"evaluations": total, "distinct_nontrivial": len(nontriv_docs),
                       "rule": "registered strata (DESIGN §4): core1 = CORE_PREFIX x CORE_BODY one line, with/without final newline; full1 = PREFIX x BODY one line; core2 = all two-line core documents; "
                               "corpus = every source_markdown of /repo/test + rule resource files; wrap-core1 = core1 wrapped in '> ', '- ', '1. '; unicode = 3 sentinels + 5 markers + 41 other code points "
@@ -461,7 +643,7 @@ def run(ctx):
                               "every line position. non-trivial = token stream has a container, >= 2 leaf blocks or an inline element other than text",
                       "strata": per, "footprints_absorbed": absorbed, "frontier": fper or "not run (VERIF_FRONTIER=1)",
                       "exhaustive": not ctx.quick()},
-        "samples": samples + fstats.get("samples", [])[:4]})
+        "samples": samples + fstats.get("samples", [])[:4] + bstats["store"]["samples"][:2] + bstats["fields"]["samples"][:2]})
 
 
 def replay(ctx, path):
@@ -483,6 +665,41 @@ def replay(ctx, path):
             return 0
         print(f"VIOLATION property=C02 replay={path}")
         return 1
+    if "function" in inp and str(inp["function"]).startswith("leading_store_roundtrip"):
+        kind = "bq" if inp["function"].endswith("_bq") else "list"
+        ps = list(inp["input"])
+        got = LS.real_storeall(kind, ps)
+        want = ps
+        if kind == "bq":
+            r = list(itertools.dropwhile(lambda p: p == "", ps))
+            want = r if r else [""]
+        ok = got.split("|")[1] == ";".join(LS.hx(p) for p in want)
+        print(f"{inp['function']} on {json.dumps(ps)}: real store/readback {got}, expected parts {json.dumps(want)}")
+        if not ok:
+            print(f"VIOLATION property=C02 replay={path}")
+            return 1
+        return 0
+    if "function" in inp and str(inp["function"]).startswith("f_fields:"):
+        LS._init_fields_worker()
+        k, line = inp["function"].split(":")[1], inp["input"]
+        bad = 0
+        for r in LS.field_requests(k, [line]):
+            a = LS.real_fields(r)
+            if a == "none" or a.startswith("not-tokenized"):
+                print(f"{r}: {a}")
+                continue
+            kk, cat = _concat_fields(a.rsplit("|", 1)[0])
+            if kk == "fclose":
+                cat = cat.replace("?", vlib.unhex(r.split("|")[2]))
+            f = a.split("|")
+            dup = kk == "fopen" and f[5] == "=" and f[4] != "=" and cat == line + vlib.unhex(f[4][1:])
+            print(f"{r}: real fields {a}; concatenation {json.dumps(cat)} vs line {json.dumps(line)}" + ("  (F-FENCE-TRAILWS shape)" if dup else ""))
+            if cat != line and not dup:
+                bad += 1
+        if bad:
+            print(f"VIOLATION property=C02 replay={path}")
+            return 1
+        return 0
     if "function" in inp:
         C._init_worker()
         F = C.real_fns()
